@@ -92,8 +92,16 @@ func (o *origin) do(req *http.Request) (*http.Response, error) {
 	if o.onFetch != nil {
 		o.onFetch(n)
 	}
+	if req.Body != nil {
+		// documented http.Client contract: the request body is sent and "will be closed by the
+		// underlying Transport, even on errors"
+		defer req.Body.Close()
+	}
 	if err := req.Context().Err(); err != nil {
 		return nil, err // documented http.Client contract: a cancelled context fails the exchange
+	}
+	if req.Body != nil {
+		drain(req.Body)
 	}
 	i := n
 	if i >= len(o.script) {
@@ -155,6 +163,88 @@ type capture struct {
 	length   int64 // RawHTTPResponder: ContentLength handed to http.Response.Write (-2: n/a)
 	chunked  bool
 	bodyErr  error
+	// what (*http.Response).Write puts on the wire after the head (wireModel), tunnel only
+	wireMethodKnown bool // resp.Request was set: Write knows whether this answers a HEAD
+	wireTE          bool // "Transfer-Encoding: chunked" is sent
+	wireCL          int64 // Content-Length sent (-1: none)
+	wirePayload     int   // body bytes sent
+	wireTerminator  bool  // the chunked terminator "0\r\n\r\n" is sent
+	wireShort       bool  // fewer body bytes than the announced Content-Length (Write returns an error)
+}
+
+// wireModel: the framing decisions of (*http.Response).Write / transferWriter as documented
+// ("consults StatusCode, ProtoMinor, Request.Method, TransferEncoding, Body, ContentLength"),
+// for HTTP/1.1 responses.  Validated against the real function on the six shapes the tunnel
+// responder produces (native probe recorded in DESIGN section 8.2).
+func wireModel(resp *http.Response, body []byte, c *capture) {
+	method := ""
+	if resp.Request != nil {
+		method = resp.Request.Method
+		c.wireMethodKnown = true
+	}
+	toHEAD := method == "HEAD"
+	te := len(resp.TransferEncoding) > 0 && resp.TransferEncoding[0] == "chunked"
+	cl := resp.ContentLength
+	hasBody := resp.Body != nil
+	n := len(body)
+	if cl == 0 && hasBody && n > 0 {
+		cl = -1 // Response.Write probes the body: data although ContentLength is 0 means "unknown"
+	}
+	if toHEAD {
+		hasBody = false
+		if te {
+			cl = -1
+		}
+	} else {
+		if !hasBody {
+			te = false
+		}
+		if te {
+			cl = -1
+		} else if !hasBody {
+			cl = 0
+		}
+	}
+	c.wireTE = te
+	c.wireCL = -1
+	if !te && (cl > 0 || (cl == 0 && method != "GET" && method != "HEAD")) {
+		c.wireCL = cl
+	}
+	if hasBody {
+		switch {
+		case te:
+			c.wirePayload, c.wireTerminator = n, true
+		case cl == -1:
+			c.wirePayload = n
+		default:
+			c.wirePayload = n
+			if int64(n) > cl {
+				c.wirePayload = int(cl)
+			}
+			c.wireShort = int64(n) < cl
+		}
+	}
+}
+
+// checkWire: what the client, which knows its own request method, makes of the bytes after
+// the head (RFC 9112 section 6.3): a response to HEAD and every 1xx / 204 / 304 response ends
+// with the head - anything sent after it is read as the beginning of the NEXT response on a
+// kept-alive tunnel.
+func checkWire(req *http.Request, c capture) {
+	bodyless := req.Method == "HEAD" || c.status/100 == 1 || c.status == 204 || c.status == 304
+	if bodyless {
+		stray := c.wirePayload
+		if c.wireTerminator {
+			stray += 5
+		}
+		vAssert(stray == 0, "c10.stray-bytes-after-a-bodyless-response")
+		if c.status/100 == 1 || c.status == 204 {
+			vAssert(!c.wireTE, "c10.transfer-encoding-on-a-bodyless-status")
+		}
+		return
+	}
+	vAssert(!c.wireShort, "c10.response-shorter-than-announced")
+	vAssert(c.wireTE || c.wireCL >= 0, "c10.response-without-framing-on-a-kept-alive-tunnel")
 }
 
 // rawSink receives what RawHTTPResponder hands to (*http.Response).Write.
@@ -166,6 +256,7 @@ func (s *rawSink) write(resp *http.Response) error {
 	if resp.Body != nil {
 		c.body, c.bodyErr = drain(resp.Body)
 	}
+	wireModel(resp, c.body, &c)
 	s.caps = append(s.caps, c)
 	return nil
 }
@@ -295,6 +386,14 @@ func (e *env) runTunnel(reqs ...*http.Request) []capture {
 	vSetResponseSink(s.write)
 	i := 0
 	vSetRequestSource(func() (*http.Request, error) {
+		if i > 0 {
+			// the tunnel is about to parse the next request from the same byte stream: whatever
+			// is left of the previous request's body (neither read to its end nor closed - Close
+			// of a server-side body discards the rest) would be taken for the next request line
+			if b, ok := reqs[i-1].Body.(*bodyReader); ok {
+				vAssert(b.closed || b.pos >= len(b.data), "c10.unread-request-body-left-on-the-tunnel")
+			}
+		}
 		if i >= len(reqs) {
 			return nil, io.EOF
 		}
@@ -309,7 +408,11 @@ func (e *env) runTunnel(reqs ...*http.Request) []capture {
 	if len(s.caps) == 0 {
 		return nil
 	}
-	return s.caps[1:]
+	caps := s.caps[1:]
+	for k := 0; k < len(caps) && k < len(reqs); k++ {
+		checkWire(reqs[k], caps[k])
+	}
+	return caps
 }
 
 // tunnelOne: one request over its own tunnel.
